@@ -19,6 +19,8 @@
   All checks are executable (`Bool`): the driver evaluates them on what the real code wrote.
 -/
 import ASV.Model.RegionExtract
+import ASV.Model.RegionAnnotations
+import ASV.Model.LocOps
 import ASV.Spec.Bases
 namespace ASV.RegionExtract
 open ASV
@@ -254,8 +256,7 @@ def oneStrand (l : Loc) : Bool :=
 /-- the record is not empty; the region lies in it (`start < end`, or `0 < end ≤ start < L` when it runs over
     the origin — `start = end`: all the way round); every feature has non-empty parts inside the record.  For a
     region over the origin, where `offset_location` is at work: a feature that runs over the origin has one
-    part on each side of it, or is shorter than the record with all parts on one strand; any other feature has
-    exons that fit into its hull (they do not overlap) and all parts on one strand -/
+    part on each side of it; any other feature is not as long as the record and has all parts on one strand -/
 def wfInput (rd : RegionData) (rec : BioRecord) : Bool :=
   let L := rec.length
   decide (0 < L) &&
@@ -264,8 +265,7 @@ def wfInput (rd : RegionData) (rec : BioRecord) : Bool :=
   rec.features.all fun f =>
     partsOK L f.loc &&
     (!rd.crossesOrigin ||
-      (if bridgesOrigin f.loc then twoPart L f.loc || (decide (f.loc.len ≠ L) && oneStrand f.loc)
-       else decide (f.loc.len ≤ f.loc.end - f.loc.start) && oneStrand f.loc))
+      ((bridgesOrigin f.loc && twoPart L f.loc) || (decide (f.loc.len ≠ L) && oneStrand f.loc)))
 
 /-! ### references go through one renumbering per kind -/
 
@@ -408,5 +408,44 @@ def regionFeatureOK (rd : RegionData) (rec : BioRecord) : Bool :=
     if rd.crossesOrigin then f.loc == .compound [⟨rd.start, L, .fwd⟩, ⟨0, rd.end, .fwd⟩]
     else f.loc == .simple ⟨rd.start, rd.end, .fwd⟩
   | _ => false
+
+/-! ### annotations of the region file -/
+
+/-- what the annotations of a region file must say, given what the full record's say: the same, with
+    NOTE / Orig. start / Orig. end set in the antiSMASH-Data comment (created, after the others, if missing) -/
+def expectedAnn (t : AnnTree) (rd : RegionData) : AnnTree :=
+  let notes := fun (d : List (String × String)) =>
+    setStr (setStr (setStr d "NOTE" (if wraps rd then noteCross else notePlain)) "Orig. start" (toString rd.start))
+      "Orig. end" (toString rd.end)
+  let m := t.sc.getD []
+  let m' := if m.any (·.1 == "antiSMASH-Data") then
+      m.map fun kv => if kv.1 == "antiSMASH-Data" then (kv.1, notes kv.2) else kv
+    else m ++ [("antiSMASH-Data", notes [])]
+  ⟨t.other, some m'⟩
+
+/-- a heap holding just the dicts of one annotation tree, and the address of its top dict -/
+def heapOfTree (t : AnnTree) : AHeap × Nat :=
+  match t.sc with
+  | none => alloc [] (.top t.other none)
+  | some m =>
+    let (h1, entries) := allocEntries [] m
+    let (h2, c) := alloc h1 (.comments entries)
+    alloc h2 (.top t.other (some c))
+
+/-- the image of a location in file coordinates, as a location (one forward part per stretch of bases) -/
+def imageLoc (L : Int) (rd : RegionData) (l : Loc) : Loc :=
+  Loc.ofParts ((imageCanon L rd l).map fun iv => (⟨iv.1, iv.2, .fwd⟩ : Part))
+
+/-- KF-C12-circular-file-reconnects: the region file of a circular record says `topology: circular` itself, and a
+    record loading it re-forms every candidate cluster from its protoclusters with `connect_locations(…,
+    wrap_point = file length)`; for a candidate cluster whose protoclusters leave a gap of more than half the file
+    (never formed by `create_candidate_clusters`, whose members overlap in a chain, but a legal `CandidateCluster`)
+    the shorter way round is over the file's ends and the candidate — and with it the region — comes back as an
+    origin-spanning one -/
+def fileReconnects (circular : Bool) (L : Int) (rd : RegionData) : Bool :=
+  circular && rd.cands.any fun c =>
+    match connect (c.protos.map fun p => imageLoc L rd p.loc) (some (regionLen L rd)) with
+    | .ok l => l.canon != imageCanon L rd c.loc
+    | .error _ => true
 
 end ASV.RegionExtract
